@@ -95,6 +95,8 @@ thread_local! {
 }
 /// Number of `ObjectModel::copy` calls since the last reset.
 pub static COPIES: AtomicUsize = AtomicUsize::new(0);
+/// The same count per copied object: index = `(address >> 3) & 7` (the slot of `cell.rs`' objects).
+pub static COPIES_AT: [AtomicUsize; 8] = [const { AtomicUsize::new(0) }; 8];
 
 impl<const L: u8> ObjectModel<CVm<L>> for COm<L> {
     const GLOBAL_LOG_BIT_SPEC: VMGlobalLogBitSpec = log(L);
@@ -108,6 +110,7 @@ impl<const L: u8> ObjectModel<CVm<L>> for COm<L> {
 
     fn copy(_from: ObjectReference, _semantics: CopySemantics, _ctx: &mut GCWorkerCopyContext<CVm<L>>) -> ObjectReference {
         COPIES.fetch_add(1, Ordering::SeqCst);
+        COPIES_AT[(_from.to_raw_address().as_usize() >> 3) & 7].fetch_add(1, Ordering::SeqCst);
         let a = NEXT_COPY.with(|c| c.get());
         assert!(a != 0, "no copy target arranged");
         unsafe { ObjectReference::from_raw_address_unchecked(Address::from_usize(a)) }
